@@ -32,7 +32,7 @@ mod verif_c14_bitset {
         total == s.length
     }
 
-    //@defaults unit=U14.2 props=C14 tier=thorough level=bounded bound="operands of 2 members each, members in 3 pages, pages created in either order" timeout=1800
+    //@defaults unit=U14.2 props=C14 tier=quick level=bounded bound="sets of 2 members, members in 3 pages, pages created in either order" timeout=900
     //@harness fns=BitSet::insert,BitSet::contains,BitSet::len,BitSet::remove,BitSet::ensure_page_index_for_major
     #[kani::proof]
     #[kani::unwind(5)]
@@ -50,56 +50,10 @@ mod verif_c14_bitset {
         kani::cover!(v1 / 512 > v2 / 512);
         kani::cover!(v1 / 512 == v2 / 512 && v1 != v2);
     }
-    //@harness fns=BitSet::intersect,BitSet::process,BitSet::compact,BitSet::compact_pages,BitSet::resize
-    #[kani::proof]
-    #[kani::unwind(10)]
-    fn bitset_intersect() {
-        let (a1, a2, b1, b2) = (any_val(), any_val(), any_val(), any_val());
-        let mut a = build(a1, a2);
-        let b = build(b1, b2);
-        a.intersect(&b);
-        assert!(wf(&a));
-        let q = any_val();
-        assert!(a.contains(q) == ((q == a1 || q == a2) && (q == b1 || q == b2)));
-        kani::cover!(a1 / 512 > a2 / 512 && a.len() == 1);
-        kani::cover!(a.len() == 2);
-    }
-    //@harness fns=BitSet::union,BitSet::process
-    #[kani::proof]
-    #[kani::unwind(10)]
-    fn bitset_union() {
-        let (a1, a2, b1, b2) = (any_val(), any_val(), any_val(), any_val());
-        let mut a = build(a1, a2);
-        let b = build(b1, b2);
-        a.union(&b);
-        assert!(wf(&a));
-        let q = any_val();
-        assert!(a.contains(q) == (q == a1 || q == a2 || q == b1 || q == b2));
-        kani::cover!(a.len() == 4);
-    }
-    //@harness fns=BitSet::subtract,BitSet::reversed_subtract,BitSet::process
-    #[kani::proof]
-    #[kani::unwind(10)]
-    fn bitset_subtract_reversed() {
-        let (a1, a2, b1, b2) = (any_val(), any_val(), any_val(), any_val());
-        let which: bool = kani::any();
-        let mut a = build(a1, a2);
-        let b = build(b1, b2);
-        let q = any_val();
-        let in_a = q == a1 || q == a2;
-        let in_b = q == b1 || q == b2;
-        if which {
-            a.subtract(&b);
-            assert!(a.contains(q) == (in_a && !in_b));
-        } else {
-            a.reversed_subtract(&b);
-            assert!(a.contains(q) == (in_b && !in_a));
-        }
-        assert!(wf(&a));
-        kani::cover!(which && a.len() == 1);
-        kani::cover!(!which && a.len() == 2);
-    }
-
+    // NOTE: harnesses for BitSet::{intersect, union, subtract, reversed_subtract} through the in-place page merge
+    // `process` (two operands of two members each) exhausted CBMC's memory (> 16 GB, also with concrete page shapes) and
+    // were removed: the page merge stays an ASSUMED contract in the IntSet proof (unit U14.3). Its compaction step is
+    // covered below.
     //@harness fns=BitSet::compact,BitSet::compact_pages tier=quick timeout=900 bound="3 stored pages in any storage order (page_map index permutation symbolic), keep-count symbolic" note="compaction used by intersect / reversed_subtract: every kept page_map entry still points at the page it pointed at before, and the kept pages occupy indices 0..new_len (so the following resize cannot cut a live page)"
     #[kani::proof]
     #[kani::unwind(6)]
